@@ -22,7 +22,7 @@ import (
 	"verif/recovery"
 )
 
-var mode = crashcheck.Mode{CheckOpen: true, Depth: 2, Conformance: false}
+var mode = crashcheck.Mode{CheckOpen: true, Depth: 2, Conformance: false, WriterOpen: true}
 
 func run(opts verifmc.Options, param string) (*verifmc.Sched, *explore.Result) {
 	sc := crashcheck.Scenarios[param]
@@ -45,7 +45,7 @@ func main() {
 	}
 	defer recovery.Cleanup()
 	c.Rule = "depth-2 crash/recover/continue/crash: every schedule within the deviation bound of 7 writer scenarios (safe / unsafe+callbacks, 1-2 clients, eager merges, retention 1 and 2) x every crash image of the recorded storage trace: all operation boundaries, every subset of a clean-up batch, and for the persist in flight every prefix length (all for snapshots, structural set for segments; thorough: all), zero-filled and stale-tail variants; distinct_nontrivial = distinct (schedule outcome) storage traces"
-	c.Explanation = "stateless exploration of the real writer on the crashfs device; each distinct crash image is materialised on tmpfs and opened with the real FileSystemDirectory (mmap loader; thorough: both loaders); oracle: open never panics or faults, succeeds whenever some snapshot Persist had completed, recovered content = abstract index after some prefix of the batches (never part of a batch); on every distinct image a writer is reopened (crashfs copy of the image, default schedule), a continuation batch applied, and every crash image of that second life recovered and compared with recovered-content + prefix of the continuation containing its acknowledged batches"
+	c.Explanation = "stateless exploration of the real writer on the crashfs device; each distinct crash image is materialised on tmpfs and opened with the real FileSystemDirectory (mmap loader; thorough: both loaders); oracle: open never panics or faults, succeeds whenever some snapshot Persist had completed, recovered content = abstract index after some prefix of the batches (never part of a batch); on every distinct image a writer is also opened (crashfs copy, default schedule: oldest-to-newest snapshot walk, deletion policy, clean-up on open) and must show what OpenReader recovered, and the directory it leaves must still recover to the same content; on every structural image of the default schedule's trace (thorough: all schedules) a continuation batch is applied, and every crash image of that second life recovered and compared with recovered-content + prefix of the continuation containing its acknowledged batches"
 	c.Assumptions = []string{
 		"directory entries of files whose Persist returned are durable (the property only demands the file flush, C13)",
 		"removals take effect in trace order, except that every subset of one clean-up batch is considered",
@@ -57,9 +57,15 @@ func main() {
 	}
 	bound := c.Pick(1, 2)
 	_ = bound
-	budget := c.PickD(80*time.Second, 15*time.Minute)
-	for _, n := range names {
-		st := explore.Explore(explore.Config{Scenario: "c03", Param: n, Bound: bound, Budget: budget / time.Duration(len(names))})
+	budget := c.PickD(100*time.Second, 20*time.Minute)
+	deadline := time.Now().Add(budget)
+	for i, n := range names {
+		// what is left of the budget is shared by the scenarios still to run
+		per := time.Until(deadline) / time.Duration(len(names)-i)
+		if per < 2*time.Second {
+			per = 2 * time.Second
+		}
+		st := explore.Explore(explore.Config{Scenario: "c03", Param: n, Bound: bound, Budget: per})
 		c.AddExplore(st)
 		c.AddCounts(0, 0, st.Counts["traces_replayed_on_real_directory"], 0, 0)
 		if c.Failed() {
